@@ -272,6 +272,12 @@ func Run(tier string, sh lib.Shard, rep *lib.Report) {
 			rep.Exhaustive = false
 		}
 	}
+	if prop == "C04" {
+		rep.Require("wide_domain_sources_simultaneously_in_flight")
+		if sh.Mine(len(scs)) {
+			runWide(prop, tier, rep)
+		}
+	}
 	for k, v := range rep.Outcomes {
 		if strings.Contains(k, "429") {
 			rep.Add("rejections_observed", v)
